@@ -355,6 +355,31 @@ pub fn begin_case() {
     vclock::disable();
 }
 
+/// Run `f` from the destructor of a guard while the thread is unwinding from a panic of the caller (the panic is caught
+/// right here): scope guards, Drop impls that shut things down.
+pub fn in_unwinding_destructor<T>(f: impl FnOnce() -> T) -> Option<T> {
+    let mut out = None;
+    let mut f = Some(f);
+    {
+        struct G<'a>(&'a mut dyn FnMut());
+        impl Drop for G<'_> {
+            fn drop(&mut self) {
+                (self.0)()
+            }
+        }
+        let mut call = || {
+            if let Some(f) = f.take() {
+                out = Some(f());
+            }
+        };
+        let _ = std::panic::catch_unwind(std::panic::AssertUnwindSafe(|| {
+            let _g = G(&mut call);
+            panic!("the caller unwinds; a guard of its makes library calls from its destructor");
+        }));
+    }
+    out
+}
+
 /// Run library code under observation on this thread.
 pub fn monitored<T>(f: impl FnOnce() -> T) -> Monitored<T> {
     let ev_start = ilog::len();
